@@ -834,7 +834,7 @@ func ruleL4c(c *Ctx) *RuleResult {
 				if !reached {
 					continue
 				}
-				_, freshBase := rootOf(a.base).(*ssa.Alloc)
+				freshBase := freshObject(a.base)
 				per[a.field] = append(per[a.field], acc{a, must.hasW(cls), isInit || freshBase})
 			}
 		}
@@ -918,7 +918,7 @@ func (c *Ctx) calledOnlyOnFresh(fn *ssa.Function) bool {
 		if e.Site.Common().IsInvoke() || len(args) == 0 {
 			return false
 		}
-		if _, ok := rootOf(args[0]).(*ssa.Alloc); ok {
+		if freshObject(args[0]) {
 			continue
 		}
 		// `x.f = &T{}; x.f.initialize()`: the receiver is a load of a location that the same block
